@@ -756,3 +756,150 @@ Section DynTop.
     split; [apply gsound; auto|apply gcomplete].
   Qed.
 End DynTop.
+
+(* ---------------------------------------------------------------------------------------- *)
+(* Terminals that are fixed strings: the engine's match at i is "the string is a prefix of the text here", so the
+   position-graph language is the character-level language of the grammar with ignored strings allowed before
+   every terminal and at the end of the text. *)
+Lemma app_eq_len {A} (a b c d : list A) : length a = length c -> a ++ b = c ++ d -> a = c /\ b = d.
+Proof.
+  revert c. induction a as [|x a IH]; intros [|y c] L E; simpl in *; try discriminate; auto.
+  inversion E; subst. destruct (IH c) as [-> ->]; auto.
+Qed.
+
+Section DynString.
+  Variable G : grammar.
+  Variable start : nat.
+  Variable text : list nat.                       (* the characters *)
+  Variable tstr : nat -> list nat.                (* the string of each terminal (rule terminals and ignored ones) *)
+  Variable rmatch : nat -> nat -> option nat.
+  Variable rtrunc : nat -> nat -> nat -> option nat.
+  Variable complete_lex : bool.
+  Variable ignore : list nat.
+
+  Notation seg := (span nat text).
+  Notation n := (length text).
+
+  (* the regex engine on a string terminal: it matches exactly when the (non-empty) string starts here, and a
+     proper truncation of the string never matches *)
+  Hypothesis H_nonempty : forall t, tstr t <> [].
+  Hypothesis H_match : forall t i j, rmatch t i = Some j <-> seg i j (tstr t).
+  Hypothesis H_trunc : forall t i lim j, rtrunc t i lim = Some j -> i + length (tstr t) <= lim /\ seg i j (tstr t).
+
+  Inductive igns : list nat -> Prop :=
+  | ig_nil : igns []
+  | ig_cons x u : In x ignore -> igns u -> igns (tstr x ++ u).
+
+  Inductive cderives : list symbol -> list nat -> Prop :=
+  | cd_nil : cderives [] []
+  | cd_term t ss g u : igns g -> cderives ss u -> cderives (T t :: ss) (g ++ tstr t ++ u)
+  | cd_nt a r ss u v : In r G -> lhs r = a -> cderives (rhs r) u -> cderives ss v -> cderives (NT a :: ss) (u ++ v).
+
+  Definition csentence : Prop := exists u g, text = u ++ g /\ cderives [NT start] u /\ igns g.
+
+  Lemma seg_len i j u : seg i j u -> j = i + length u /\ j <= n.
+  Proof. intros (p & s & E & L1 & L2). split; [lia|]. rewrite E, !app_length. lia. Qed.
+
+  Lemma seg_split i k u v : seg i k (u ++ v) -> seg i (i + length u) u /\ seg (i + length u) k v.
+  Proof.
+    intros (p & s & E & L1 & L2). rewrite app_length in L2. split.
+    - exists p, (v ++ s). rewrite <- app_assoc in E. repeat split; auto.
+    - exists (p ++ u), s. rewrite app_length. repeat split; try lia.
+      rewrite E, <- !app_assoc. reflexivity.
+  Qed.
+
+  Lemma seg_nil_inv i k : seg i k [] -> k = i.
+  Proof. intros H. apply seg_len in H. simpl in H. lia. Qed.
+
+  Lemma seg_pos t i j : seg i j (tstr t) -> i < j.
+  Proof.
+    intros H. apply seg_len in H. pose proof (H_nonempty t). destruct (tstr t); [congruence|]. simpl in H. lia.
+  Qed.
+
+  Lemma fwd_string : fwd rmatch rtrunc.
+  Proof.
+    split.
+    - intros t i j H. apply H_match in H. eapply seg_pos; eauto.
+    - intros t i lim j H. apply H_trunc in H. eapply seg_pos; apply H.
+  Qed.
+
+  Notation ends := (ends_of rmatch rtrunc complete_lex).
+  Notation gderives := (gderives G rmatch rtrunc complete_lex ignore).
+  Notation ign_path := (ign_path rmatch ignore).
+
+  Lemma ends_string t i j : In j (ends t i) <-> seg i j (tstr t).
+  Proof.
+    rewrite ends_spec. split.
+    - intros (e & E & [-> |(_ & k & Hk & Ht)]); [apply H_match; auto|].
+      apply H_trunc in Ht. apply H_match, seg_len in E. lia.
+    - intros H. exists j. split; [apply H_match; auto|left; auto].
+  Qed.
+
+  Lemma ign_path_igns i j : ign_path i j -> exists g, igns g /\ (i <= n -> seg i j g).
+  Proof.
+    induction 1 as [i|i j k (x & Hx & Hm) Hp (g & Hg & Hs)].
+    - exists []. split; [constructor|]. intros. apply span_nil; auto.
+    - apply H_match in Hm. exists (tstr x ++ g). split; [constructor; auto|].
+      intros _. eapply span_app; eauto. apply Hs. apply seg_len in Hm. lia.
+  Qed.
+
+  Lemma igns_ign_path g : igns g -> forall i j, seg i j g -> ign_path i j.
+  Proof.
+    induction 1 as [|x u Hx Hu IH]; intros i j Hs.
+    - apply seg_nil_inv in Hs. subst. constructor.
+    - apply seg_split in Hs. destruct Hs as [S1 S2].
+      econstructor; [|apply IH; eauto]. exists x. split; auto. apply H_match; auto.
+  Qed.
+
+  Lemma gderives_cderives ss i k : gderives ss i k -> i <= n -> exists u, cderives ss u /\ seg i k u.
+  Proof.
+    induction 1 as [i | t ss i i1 j k Hp He Hd IH | a r ss i j k Hr Hl Hd1 IH1 Hd2 IH2]; intros Hi.
+    - exists []. split; [constructor|apply span_nil; auto].
+    - destruct (ign_path_igns _ _ Hp) as (g & Hg & Sg). specialize (Sg Hi).
+      apply ends_string in He. destruct IH as (u & Hu & Su); [apply seg_len in He; lia|].
+      exists (g ++ tstr t ++ u). split; [constructor; auto|].
+      eapply span_app; eauto. eapply span_app; eauto.
+    - destruct (IH1 Hi) as (u & Hu & Su). destruct IH2 as (v & Hv & Sv); [apply seg_len in Su; lia|].
+      exists (u ++ v). split; [econstructor; eauto|eapply span_app; eauto].
+  Qed.
+
+  Lemma cderives_gderives ss u : cderives ss u -> forall i k, seg i k u -> gderives ss i k.
+  Proof.
+    induction 1 as [| t ss g u Hg Hu IH | a r ss u v Hr Hl Hu IHu Hv IHv]; intros i k Hs.
+    - apply seg_nil_inv in Hs. subst. constructor.
+    - apply seg_split in Hs. destruct Hs as [S1 S2]. apply seg_split in S2. destruct S2 as [S2 S3].
+      apply (gd_term _ _ _ _ _ t ss i (i + length g) (i + length g + length (tstr t)) k).
+      + eapply igns_ign_path; eauto.
+      + apply ends_string; auto.
+      + apply IH; auto.
+    - apply seg_split in Hs. destruct Hs as [S1 S2]. econstructor; eauto.
+  Qed.
+
+  Theorem gsentence_iff_csentence :
+    gsentence G start n rmatch rtrunc complete_lex ignore <-> csentence.
+  Proof.
+    split.
+    - intros (j & D & P). destruct (gderives_cderives _ _ _ D (Nat.le_0_l _)) as (u & Hu & Su).
+      destruct (ign_path_igns _ _ P) as (g & Hg & Sg).
+      assert (Hj : j <= n) by (apply seg_len in Su; lia). specialize (Sg Hj).
+      exists u, g. repeat split; auto.
+      destruct Su as (p & s & E & L1 & L2). destruct p; [|discriminate]. simpl in E.
+      destruct Sg as (p' & s' & E' & L1' & L2').
+      assert (Hs' : s' = []).
+      { apply (f_equal (@length nat)) in E'. rewrite !app_length in E'. destruct s'; auto. simpl in E'. lia. }
+      subst s'. rewrite app_nil_r in E'. rewrite E in E'. simpl in L2.
+      destruct (app_eq_len u s p' g (eq_trans L2 (eq_sym L1')) E') as [E1 E2]. rewrite <- E2. exact E.
+    - intros (u & g & E & Hu & Hg). exists (length u). split.
+      + apply (cderives_gderives _ _ Hu). exists [], g. simpl. repeat split; auto.
+      + apply (igns_ign_path _ Hg). exists u, []. rewrite app_nil_r. repeat split; auto.
+        rewrite E, app_length. reflexivity.
+  Qed.
+
+  (* the model of the dynamic lexers accepts exactly the character-level language *)
+  Theorem dyn_accepts_iff_csentence :
+    dyn_accepts G start n rmatch rtrunc complete_lex ignore = true <-> csentence.
+  Proof.
+    rewrite (dyn_accepts_iff_gsentence G start n rmatch rtrunc complete_lex ignore fwd_string).
+    apply gsentence_iff_csentence.
+  Qed.
+End DynString.
